@@ -130,10 +130,12 @@ func TrimFileExtension(fileName string) string {
 //   - path is the destination file path.
 //   - content is the content to write.
 func WriteFile(tempDir, path string, content []byte) (writeErr error) {
+	defer verifHook("return", path)
 	tempFile, err := os.CreateTemp(tempDir, tempFileNamePrefix)
 	if err != nil {
 		return fmt.Errorf("failed to create temp file: %w", err)
 	}
+	verifHook("created", tempFile.Name())
 	defer func() {
 		// remove the temp file in case of error
 		if writeErr != nil {
@@ -145,11 +147,13 @@ func WriteFile(tempDir, path string, content []byte) (writeErr error) {
 	if _, err := tempFile.Write(content); err != nil {
 		return fmt.Errorf("failed to write content to temp file: %w", err)
 	}
+	verifHook("written", tempFile.Name())
 
 	// close before moving
 	if err := tempFile.Close(); err != nil {
 		return fmt.Errorf("failed to close temp file: %w", err)
 	}
+	verifHook("closed", tempFile.Name())
 
 	// rename is atomic on UNIX-like platforms
 	return os.Rename(tempFile.Name(), path)
